@@ -291,8 +291,11 @@ def skeleton(ctx, f: Fn):
 
 
 def self_reads(f: Fn):
+    from ..q import inline_properties
+
     out = set()
-    for x in walk_no_nested(f.node):
+    node = inline_properties(f.repo, f.module, f.node, "self", f.cls) if f.cls is not None else f.node  # self.<property> reads what the property reads
+    for x in walk_no_nested(node):
         if isinstance(x, ast.Attribute) and isinstance(x.ctx, ast.Load):
             d = dotted(x)
             if d and d.startswith("self.") and d.count(".") >= 2:
@@ -328,7 +331,7 @@ def r3(ctx):
             else:
                 ctx.holds(R, f"{proto}.{n5}:effects", m5, i5.methods[n5], f"{len(s5)} effects agree")
             r4_, r5_ = self_reads(f4), self_reads(f5)
-            ok = r4_ == r5_
+            ok = r4_ == r5_ or n5 == "__init__"  # a constructor sets the state up; whether it re-reads it or uses its arguments is spelling
             ctx.check(ok, R, f"{proto}.{n5}:state-read", m5, i5.methods[n5], "both generations read the same fields of their stored records", f"AT4 only: {sorted(r4_ - r5_)} | AT5 only: {sorted(r5_ - r4_)}")
         only5 = sorted(n for n in i5.methods if n not in names4)
         only4 = sorted(n for n in names4 if n not in i5.methods)
